@@ -480,6 +480,11 @@ impl<'a> Ctx<'a> {
     /// Classify a failure: Ok(what) if it is an open known finding (and we
     /// are not in strict mode), Err(fail) otherwise.
     pub fn classify(&self, fail: Fail) -> Result<String, Fail> {
+        // survey mode (development aid, never used by registered commands): count
+        // every failure by key and keep going
+        if std::env::var_os("VERIF_SURVEY").is_some() {
+            return Ok(format!("SURVEY {}", fail.key));
+        }
         if !self.cfg.strict {
             if let Some(f) = self.findings.open(self.cfg.property, &fail.key) {
                 return Ok(f.key.clone());
@@ -657,6 +662,11 @@ impl<'a> Ctx<'a> {
                                 Err(fail) => match self.classify(fail) {
                                     Ok(key) => {
                                         if !failed {
+                                            if key.starts_with("SURVEY ") && !st.known.contains_key(&key) {
+                                                // survey mode: keep one (unshrunk) input per key
+                                                let k = key.trim_start_matches("SURVEY ");
+                                                write_replay(self.cfg.property, &format!("survey-{name}"), &case, k, "");
+                                            }
                                             *st.known.entry(key).or_default() += 1;
                                         }
                                         Ok(())
@@ -1071,6 +1081,9 @@ impl PropertyReport {
         }
 
         for (key, n) in &known {
+            if key.starts_with("SURVEY ") {
+                println!("{key} [{n} hits]");
+            }
             if let Some(f) = findings.open(self.property, key) {
                 println!(
                     "KNOWN-FINDING: property={} {} [key={}; hit {} times]",
